@@ -392,6 +392,16 @@ fn ref_zoned(z: &DateTime<FixedOffset>) -> (String, String) {
     (format!("{}T{}{}", rd, rt, ro), format!("{} {} {}", rd, rt, ro))
 }
 
+/// the wall clock as the crate computes it, if it is a `NaiveDate` (op `tx.dtf.local`: the side
+/// condition `Zoned.naive_local z = .ok l` / `InRangeSecs (wallSecs z)` of the theorems)
+fn local_reading(z: &DateTime<FixedOffset>) -> String {
+    match guard(|| z.naive_utc().checked_add_offset(*z.offset())) {
+        Ok(Some(l)) => format!("some {}", sdt(&l)),
+        Ok(None) => "none".into(),
+        Err(()) => "panic".into(),
+    }
+}
+
 /// finding F25 (known_findings.json): a zone-aware value whose wall-clock date lies outside
 /// `NaiveDate::MIN..=MAX` prints that date (year +262143 / -262144) and `FromStr` rejects it.  Called
 /// only for such values (whole-minute offset, leap second only on second 59).
@@ -504,6 +514,18 @@ pub fn run(c: &mut Ctx) {
         }
     }
 
+    // theorem `NaiveTime_reads_without_seconds`: `HH:MM` reads as `HH:MM:00`, all 1 440 minutes
+    for h in 0..24u32 {
+        for m in 0..60u32 {
+            let t = format!("{:02}:{:02}", h, m);
+            c.op(&format!("tx.time.parse {}", hex(t.as_bytes())), &rd_time(&t));
+            c.count("time:without-seconds");
+            if guard(|| t.parse::<NaiveTime>().ok()) != Ok(NaiveTime::from_hms_opt(h, m, 0)) {
+                c.fail("NaiveTime HH:MM does not read as HH:MM:00", &t);
+            }
+        }
+    }
+
     // ---------------------------------------------------------------- NaiveDateTime
     let mut known_reported = 0;
     for i in 0..n {
@@ -573,6 +595,7 @@ pub fn run(c: &mut Ctx) {
         }
         let (dbg, dsp) = (dbg_text(&z), dsp_text(&z));
         c.op(&format!("tx.dtf {}", sz(&z)), &format!("{} | {}", both(&dbg, &rd_dtf), both(&dsp, &rd_dtf)));
+        c.op(&format!("tx.dtf.local {}", sz(&z)), &local_reading(&z));
         // the crate's own range test of the wall clock against the independent one
         // (`InRangeSecs (wallSecs z)` of the theorems: the wall-clock year lies in MIN_YEAR..=MAX_YEAR)
         {
@@ -602,6 +625,15 @@ pub fn run(c: &mut Ctx) {
                 }
             }
         }
+        if strict && whole_min && local_ok && i % 4 == 0 {
+            // theorem `DateTime_FixedOffset_reads_lowercase_t`: the Debug text with `t` for `T` reads back
+            let lower = txt(&dbg).replacen('T', "t", 1);
+            c.op(&format!("tx.dtf.parse {}", hex(lower.as_bytes())), &rd_dtf(&lower));
+            c.count("dtf:lower-case-t");
+            if guard(|| lower.parse::<DateTime<FixedOffset>>().ok().map(|b| (b, b.offset().local_minus_utc()))) != Ok(Some((z, off))) {
+                c.fail("DateTime<FixedOffset> Debug text with a lower-case t does not read back", &format!("{} text {:?}", sz(&z), lower));
+            }
+        }
         if local_ok {
             let l = z.naive_local();
             let (rd, rt, ro) = (ref_date(l.year(), l.month(), l.day()), ref_time(l.num_seconds_from_midnight(), l.nanosecond()), ref_offset(off));
@@ -623,7 +655,18 @@ pub fn run(c: &mut Ctx) {
             let z: DateTime<FixedOffset> = tz.from_utc_datetime(base);
             let (dbg, dsp) = (dbg_text(&z), dsp_text(&z));
             c.op(&format!("tx.dtf {}", sz(&z)), &format!("{} | {}", both(&dbg, &rd_dtf), both(&dsp, &rd_dtf)));
+            c.op(&format!("tx.dtf.local {}", sz(&z)), &local_reading(&z));
             let local_ok = guard(|| z.naive_utc().checked_add_offset(tz).is_some()) == Ok(true);
+            {
+                let (y, _, _, _, _) = wall_clock(&z);
+                if local_ok != (MIN_YEAR as i64 <= y && y <= MAX_YEAR as i64) {
+                    c.fail("DateTime<FixedOffset>: checked_add_offset disagrees with the wall-clock year being in range", &format!("range end {} {} wall-clock year {} local_ok {}", k, sz(&z), y, local_ok));
+                }
+                let (rdbg, rdsp) = ref_zoned(&z);
+                if txt(&dbg) != rdbg || txt(&dsp) != rdsp {
+                    c.fail("DateTime<FixedOffset> text at a range end is not the text of the independently computed wall clock", &format!("{:?} / {:?}, expected {:?} / {:?}, for {}", txt(&dbg), txt(&dsp), rdbg, rdsp, sz(&z)));
+                }
+            }
             c.count(if local_ok { "dtf:range-end,local-in-range" } else { "dtf:range-end,local-outside-range" });
             if local_ok {
                 for (form, x) in [("Debug", &dbg), ("Display", &dsp)] {
@@ -660,6 +703,29 @@ pub fn run(c: &mut Ctx) {
             for (form, x) in [("Debug", &dbg), ("Display", &dsp)] {
                 if guard(|| txt(x).parse::<DateTime<Utc>>().ok() == Some(z)) != Ok(true) {
                     c.fail(&format!("DateTime<Utc> {} does not parse back", form), &format!("{} text {:?}", sdt(&v), txt(x)));
+                }
+            }
+        }
+        if strict && i % 4 == 0 {
+            // theorem `DateTime_Utc_reads_lowercase`: `t` / `z` / `utc` in lower case read back as the value
+            let forms = [
+                txt(&dbg).replacen('T', "t", 1).replacen('Z', "z", 1),
+                txt(&dbg).replacen('Z', "z", 1),
+                txt(&dbg).replacen('T', "t", 1),
+                txt(&dsp).replacen("UTC", "utc", 1),
+            ];
+            for (k, t) in forms.iter().enumerate() {
+                c.op(&format!("tx.dtu.parse {}", hex(t.as_bytes())), &rd_dtu(t));
+                if k % 3 == 0 {
+                    c.op(&format!("tx.dtf.parse {}", hex(t.as_bytes())), &rd_dtf(t));
+                }
+                c.count("dtu:lower-case-spelling");
+                if guard(|| t.parse::<DateTime<Utc>>().ok() == Some(z)) != Ok(true) {
+                    c.fail("DateTime<Utc> text with lower-case t / z / utc does not read back", &format!("{} text {:?}", sdt(&v), t));
+                }
+                let fz = guard(|| t.parse::<DateTime<FixedOffset>>().ok().map(|b| (b.naive_utc(), b.offset().local_minus_utc())));
+                if k % 3 == 0 && fz != Ok(Some((v, 0))) {
+                    c.fail("DateTime<FixedOffset> FromStr of a UTC text with lower-case t / z / utc is not the value at offset 0", &format!("{} text {:?}", sdt(&v), t));
                 }
             }
         }
